@@ -8,6 +8,8 @@ package bcachetrace
 import (
 	"encoding/json"
 	"fmt"
+	"math"
+	"math/big"
 	"sort"
 	"strconv"
 	"strings"
@@ -44,10 +46,12 @@ const nKeys = 4
 const ms = time.Millisecond
 const lo60 = int64(1) << 60
 const hi61 = int64(1) << 61
-const gran = 256 // float64 spacing for 2^60 <= x < 2^61
+const gran = 1024    // largest float64 spacing on int64 (|x| >= 2^62): slack of the interval checker
+const nearGran = 256 // spacing for 2^60 <= x < 2^61 (today's UnixNano)
 
 type synthEnt struct {
 	k, v  int
+	abs   int64         // when not 0: this absolute Expire (negative / huge values)
 	rel   time.Duration // deadline relative to the start of the Restore call; 0 = untimed (when timed == false)
 	timed bool
 }
@@ -61,6 +65,9 @@ type planOp struct {
 	// lands on the deadline itself (exercises the undecided windows of the interval checker)
 	alignOn bool
 	align   int64
+	// ttlWrap: the TTL is MaxInt64 - now + wrapOff, computed just before the call
+	ttlWrap bool
+	wrapOff int64
 	synth   []synthEnt // Restore / Load: synthetic content (nil = latest exported blob, or empty object when none)
 }
 
@@ -86,8 +93,8 @@ type stepRec struct {
 	tw     int64
 	mem    map[int]ent
 	visK   []int
-	visS   []int64
-	window bool // some deadline relevant to the call lies inside its clock bracket (not "decided")
+	visS   []*big.Int // exact integer value of the float64 score (2^63 does not fit int64)
+	window bool       // some deadline relevant to the call lies inside its clock bracket (not "decided")
 }
 
 type traceRes struct {
@@ -99,12 +106,24 @@ type traceRes struct {
 
 // ---------- generation ----------
 
+const year250 = 250 * 365 * 24 * time.Hour // 7.884e18 ns: wraps as well
+// ttlWrapPoint marks "a TTL next to the overflow point MaxInt64 - now"; the offset is drawn when the op is built
+const ttlWrapPoint = time.Duration(math.MinInt64 + 12345)
+
+var wrapOffsets = []int64{-1000000000, -1000000, -3000, -400, 0, 1, 400, 3000, 1000000, 1000000000}
+
 var ttlAlphabet = []time.Duration{bcache.NoExpire, bcache.DefaultExpire, bcache.DefaultExpire, 40 * ms, 120 * ms, 40 * ms, 120 * ms}
 
 // every TTL kind newIterator distinguishes: NoExpire, DefaultExpire, positive (short, and occasionally huge),
 // other negatives
 func pickTTL(r *vhlib.Rng) time.Duration {
 	switch r.Intn(40) {
+	case 5:
+		return time.Duration(math.MaxInt64) // now + ttl overflows int64: Expire wraps negative, never expires
+	case 6:
+		return year250
+	case 7, 8:
+		return ttlWrapPoint // placeholder: replaced at run time by MaxInt64 - now + a small offset
 	case 0, 1:
 		return -5 * ms
 	case 2:
@@ -119,7 +138,8 @@ func pickTTL(r *vhlib.Rng) time.Duration {
 
 // cache configurations: the default expiry given to SetDefaultExpire. Substantial weight on the non-positive
 // ones (0 = none, NoExpire = -1ns, other negatives): DefaultExpire writes must then store WITHOUT expiry.
-var defAlphabet = []time.Duration{40 * ms, 120 * ms, 40 * ms, 0, 0, bcache.NoExpire, bcache.NoExpire, -5 * ms, -time.Hour}
+var defAlphabet = []time.Duration{40 * ms, 120 * ms, 40 * ms, 0, 0, bcache.NoExpire, bcache.NoExpire, -5 * ms, -time.Hour,
+	40 * ms, 120 * ms, 0, bcache.NoExpire, -5 * ms, time.Duration(math.MaxInt64), year250}
 var defNonPositive = []time.Duration{0, bcache.NoExpire, -5 * ms, -time.Hour}
 
 func pickTimed(r *vhlib.Rng) time.Duration {
@@ -163,7 +183,16 @@ func (g *gen) defaultOps() {
 	}
 }
 func (g *gen) add(kind, k int, ttl, pause time.Duration) {
-	g.ops = append(g.ops, planOp{kind: kind, k: k, v: g.nv(), ttl: ttl, pause: pause})
+	op := planOp{kind: kind, k: k, v: g.nv(), ttl: ttl, pause: pause}
+	g.fixWrap(&op)
+	g.ops = append(g.ops, op)
+}
+
+func (g *gen) fixWrap(op *planOp) {
+	if op.ttl == ttlWrapPoint {
+		op.ttlWrap = true
+		op.wrapOff = wrapOffsets[g.r.Intn(len(wrapOffsets))]
+	}
 }
 func (g *gen) key() int { return g.r.Intn(nKeys) }
 
@@ -187,7 +216,10 @@ func (g *gen) synthWith(fk int, fe synthEnt) []synthEnt {
 func (g *gen) synth() []synthEnt {
 	var s []synthEnt
 	for k := 0; k < nKeys; k++ {
-		switch g.r.Intn(7) {
+		switch g.r.Intn(8) {
+		case 7: // deadlines the code treats as "never": negative (wrapped) or next to MaxInt64
+			s = append(s, synthEnt{k: k, v: g.nv(), timed: true, abs: []int64{math.MinInt64, math.MinInt64 + 600, -7432541275397305633,
+				-8771913312252021218, -5, -1, math.MaxInt64, math.MaxInt64 - 600, 1 << 62}[g.r.Intn(9)]})
 		case 6: // deadline inside (or next to) the clock bracket of the load itself
 			s = append(s, synthEnt{k: k, v: g.nv(), rel: time.Duration(g.r.Intn(40000)), timed: true})
 		case 0: // absent
@@ -226,6 +258,7 @@ func (g *gen) random(heavyPause bool, w []int) {
 	}
 	p := pickPause(g.r, heavyPause)
 	op := planOp{kind: kind, k: g.key(), v: g.nv(), ttl: pickTTL(g.r), pause: p}
+	g.fixWrap(&op)
 	if (kind == kGet || kind == kGetWithExpire || kind == kReplace || kind == kSweep || kind == kCount) && g.r.Chance(1, 6) {
 		op.alignOn = true
 		op.align = int64(g.r.Intn(4001)) - 2000
@@ -475,15 +508,31 @@ func durStr(d time.Duration) string {
 }
 
 // deadlines are written relative to the first clock reading of the trace (0 stays 0 = untimed)
-func rel(d, t0 int64) int64 {
-	if d == 0 {
-		return 0
+// zsub: d - t0 as an exact integer (a wrapped deadline near MinInt64 minus t0 does not fit int64)
+func zsub(d, t0 int64) *big.Int { return new(big.Int).Sub(big.NewInt(d), big.NewInt(t0)) }
+
+func zstr(z *big.Int) string {
+	if z.Sign() < 0 {
+		return "(" + z.String() + ")"
 	}
-	return d - t0
+	return z.String()
+}
+
+// relZ: a deadline as written into the case (relative to t0; 0 stays 0 = untimed)
+func relZ(d, t0 int64) string {
+	if d == 0 {
+		return "0"
+	}
+	return zstr(zsub(d, t0))
+}
+
+func scoreInt(f float64) *big.Int {
+	z, _ := new(big.Float).SetFloat64(f).Int(nil)
+	return z
 }
 
 func coqEntry(k int, e ent, t0 int64) string {
-	return vhlib.Pair(vhlib.Z(int64(k)), vhlib.Pair(vhlib.Z(int64(e.Value)), vhlib.Z(rel(e.Expire, t0))))
+	return vhlib.Pair(vhlib.Z(int64(k)), vhlib.Pair(vhlib.Z(int64(e.Value)), relZ(e.Expire, t0)))
 }
 
 func coqMap(m map[int]ent, t0 int64) string {
@@ -588,6 +637,9 @@ func runTraceFrom(pl plan, initBlob []byte) (res traceRes) {
 					}
 				}
 			}
+		}
+		if op.ttlWrap {
+			op.ttl = time.Duration(math.MaxInt64 - time.Now().UnixNano() + op.wrapOff)
 		}
 		st := stepRec{label: kindName[op.kind]}
 		k, v := op.k, op.v
@@ -695,6 +747,9 @@ func runTraceFrom(pl plan, initBlob []byte) (res traceRes) {
 						e := ent{Value: s.v}
 						if s.timed {
 							e.Expire = nowNs + int64(s.rel)
+							if s.abs != 0 {
+								e.Expire = s.abs
+							}
 						}
 						raw[strconv.Itoa(s.k)] = e
 					}
@@ -740,11 +795,11 @@ func runTraceFrom(pl plan, initBlob []byte) (res traceRes) {
 		}
 		for _, n := range vis0 {
 			st.visK = append(st.visK, n.Key)
-			st.visS = append(st.visS, int64(n.Score))
+			st.visS = append(st.visS, scoreInt(n.Score))
 		}
 		// ----- observed output and witness instant -----
 		st.tw = st.a
-		inWin := func(d int64) bool { return d != 0 && d >= st.a-gran && d <= st.b+gran }
+		inWin := func(d int64) bool { return d > 0 && d >= st.a-nearGran && d <= st.b+nearGran }
 		storeTW := func() {
 			if x, timed := effTTL(pl.def, op.ttl); timed {
 				if e, ok := st.mem[k]; ok && e.Value == v {
@@ -782,10 +837,13 @@ func runTraceFrom(pl plan, initBlob []byte) (res traceRes) {
 			}
 		case kGet, kGetWithExpire:
 			if hit {
-				if op.kind == kGet { // Get shows no deadline: take the stored field (same field GetWithExpire shows)
+				if op.kind == kGet { // Get shows no deadline: take the stored field as GetWithExpire would show it
 					gd = st.mem[k].Expire
+					if gd < 0 {
+						gd = 0 // isVisit false: zero time
+					}
 				}
-				st.out = "OutGet " + vhlib.Opt(true, vhlib.Pair(vhlib.Z(int64(gv)), vhlib.Z(rel(gd, tBase))))
+				st.out = "OutGet " + vhlib.Opt(true, vhlib.Pair(vhlib.Z(int64(gv)), relZ(gd, tBase)))
 			} else {
 				st.out = "OutGet None"
 				st.tw = st.b
@@ -873,7 +931,7 @@ func runTraceFrom(pl plan, initBlob []byte) (res traceRes) {
 func (s stepRec) coq(t0 int64) string {
 	vis := make([]string, len(s.visK))
 	for i := range s.visK {
-		vis[i] = vhlib.Pair(vhlib.Z(s.visS[i]-t0), vhlib.Z(int64(s.visK[i])))
+		vis[i] = vhlib.Pair(zstr(new(big.Int).Sub(s.visS[i], big.NewInt(t0))), vhlib.Z(int64(s.visK[i])))
 	}
 	return fmt.Sprintf("{| s_op := %s; s_a := %s; s_b := %s; s_out := %s; s_tw := %s; s_mem := %s; s_vis := %s |}",
 		s.op, vhlib.Z(s.a-t0), vhlib.Z(s.b-s.a), s.out, vhlib.Z(s.tw-s.a), coqMap(s.mem, t0), vhlib.List(vis))
@@ -901,7 +959,12 @@ func runTicker(r *vhlib.Rng) tickerRes {
 	var calls []string
 	for k := 0; k < n; k++ {
 		v := 1000 + k
-		switch r.Intn(7) {
+		switch r.Intn(8) {
+		case 7: // a TTL so large that now + ttl overflows int64: the deadline wraps negative, the entry never expires
+			d := []time.Duration{time.Duration(math.MaxInt64), year250}[r.Intn(2)]
+			c.Set(k, v, d)
+			live[k] = v
+			calls = append(calls, fmt.Sprintf("Set(%d,%d,%s)", k, v, d))
 		case 6: // default TTL kind on a cache without a positive default: stored without expiry
 			switch r.Intn(3) {
 			case 0:
